@@ -37,8 +37,11 @@ B(s) == Chars(s)
 --------------------------------------------------------------------------
 \* universe c03
 TypeAtoms == {<<t, TRUE>> : t \in NetTypes \cup {"document"}} \cup {<<t, FALSE>> : t \in NetTypes}
-AtomSets == {S \in SUBSET TypeAtoms : Cardinality(S) <= (IF Big THEN 2 ELSE 1)}
-          \cup (IF Big THEN {} ELSE
+\* thorough tier: every pair of atoms over the types that have special handling (document, websocket,
+\* the frame and xhr aliases) plus every single atom; quick tier: single atoms and hand-picked pairs
+PairTypes == {"script", "image", "document", "websocket", "xmlhttprequest", "subdocument"}
+AtomSets == {S \in SUBSET TypeAtoms : Cardinality(S) <= 1}
+          \cup (IF Big THEN {S \in SUBSET {a \in TypeAtoms : a[1] \in PairTypes} : Cardinality(S) = 2} ELSE
                 { {<<"script", TRUE>>, <<"image", FALSE>>}, {<<"script", TRUE>>, <<"image", TRUE>>},
                   {<<"script", FALSE>>, <<"image", FALSE>>}, {<<"document", TRUE>>, <<"script", FALSE>>},
                   {<<"document", TRUE>>, <<"script", TRUE>>}, {<<"websocket", TRUE>>, <<"xmlhttprequest", FALSE>>},
@@ -390,6 +393,13 @@ CaseRecord(f) ==
       mvw == [q \in DOMAIN Reqs |-> IdealVerdictsH(Lw, T, Res, Reqs[q], [j \in DOMAIN keepIdx |-> EngineHits(f, keepIdx[j], q)])]
       base0 == [k |-> "net", u |-> U, mono |-> (U \in {"c01", "c01d", "c05"}), rules |-> [i \in DOMAIN L |-> RuleText(L[i])], tags |-> T,
                v |-> iv, csp |-> ic,
+               \* check_network_request_subset under the three other flag combinations (universe c01 only)
+               subset |-> IF U = "c01"
+                          THEN [q \in DOMAIN Reqs |->
+                                  [fl \in {<<TRUE, FALSE>>, <<FALSE, TRUE>>, <<TRUE, TRUE>>} |->
+                                     UNION {VerdictsSubset(L, hv, T, Res, Reqs[q], fl[1], fl[2]) :
+                                              hv \in HitVectorsH([i \in DOMAIN L |-> f[q][i].ideal])}]]
+                          ELSE <<>>,
                dev |-> SetToSeqD({ [q |-> q, names |-> UNION {DevHit(L[i], Reqs[q]) : i \in DOMAIN L}, mv |-> mv[q], mcsp |-> mc[q]] : q \in devq })]
       mh == [q \in DOMAIN Reqs |-> [i \in DOMAIN L |->
                IF Supported(Reqs[q]) THEN f[q][i].ideal ELSE {TRUE, FALSE}]]
